@@ -11,6 +11,7 @@ import json
 import os
 import random
 import tempfile
+from urllib.parse import unquote
 from fractions import Fraction
 
 import numpy as np
@@ -40,9 +41,10 @@ RULE = ("(a) fields on anisotropic 3-d meshes (1-5 cells per axis, negative/larg
         "dimensions, coordinates, array names/order/components/type/values and the active scalars/vectors attributes vs the model grid; VTK FindCell at every cell centre, at "
         "random interior points, near and on faces, outside, vs the model's locate and vs f(p); Field.to_file in bin/bin8/txt/xml with "
         "and without side-car -> the file re-read by VTK alone goes to the model reader and is compared with Field.from_file; side-car "
-        "presence and content vs the model; exact round trip by the model (op roundtrip).  (b) legacy point-data files fabricated by "
-        "the harness (scalar / vector, with and without per-component blocks, single-point axes, side-car, short / blank / broken "
-        "data) vs the model's legacy reader.  (b') histories: sessions of 2-4 to_file calls (other meshes, with / without subregions, any "
+        "presence and content vs the model; the ORDER of the arrays VTK reads back from each file and, for text files, the SCALARS / VECTORS / FIELD "
+        "section headers with their array names vs the model's legacyOrder / legacySections; exact round trip by the model (op roundtrip).  (b) legacy point-data files fabricated by "
+        "the harness (scalar / vector, with and without per-component blocks, single-point axes, side-car, short / long / blank / broken "
+        "data, keyword lines inside the data, one number too many, coordinate headers without numbers) vs the model's legacy reader.  (b') histories: sessions of 2-4 to_file calls (other meshes, with / without subregions, any "
         "representation, save_subregions on/off) and from_file calls on one or two file names in one directory, optionally starting from an old "
         "point-data file with side-car, against the model's directory (op session); every read must return the field written last under that "
         "name (the stale side-car class is finding D64).  (c) cell-data files fabricated with VTK (no valid array, no field array, extra arrays, "
@@ -52,23 +54,36 @@ RULE = ("(a) fields on anisotropic 3-d meshes (1-5 cells per axis, negative/larg
         "and subregions (exactly for bin/xml, 10 significant digits for txt); legacy files give one value per point-centred cell.  "
         "non-trivial = a field with >= 2 cells and non-constant data, or a fabricated file")
 TRUSTED = ["harness/c16.py + driver JSON glue", "VTK 9: structured cell numbering, FindCell, legacy/XML writers and readers preserve a "
-           "grid (observed on every case, not proved)", "Python json + float repr round trip of the side-car",
+           "grid up to the order of the arrays in legacy files, which the model follows (observed on every case, not proved)", "Python json + float repr round trip of the side-car",
            "sqrt applied by the harness to the model's squared norm", "the harness's tokenisation of legacy text lines"]
 ASSUMPTIONS = ["float64 fields only (int/float32 dtypes change the VTK array type, complex is rejected by VTK)",
                "labels never contain XML-special or control characters: VTK's XML writer does not escape attribute values (VTK is trusted)",
                "'same region' is read as same corners: a VTK file cannot carry dims/units names, tolerance, bc, unit or vdim_mapping",
                "theorems are about exact rational arithmetic; the text writer's rounding is a parameter `rnd`",
                "on a shared face VTK reports the lower cell and the mesh the upper one; the property is read as 'a cell containing p'"]
-UNPROVED = ["VTK writers/readers are modelled as the identity (bin, xml) or value-wise rounding (txt) on the grid view: observed, not proved "
-            "(also: the XML/legacy sniffing of the first line, the legacy writer's SCALARS/VECTORS/FIELD layout chosen by the active attributes)",
+UNPROVED = ["VTK's writers/readers are modelled on the grid view as: XML = identity, legacy (bin/bin8/txt) = the reordering legacyOrder (active "
+            "scalars/vectors array first, the rest in a FIELD block; layout proved in legacy_file_layout and COMPARED with the section headers of "
+            "every text file and with the array order VTK reads back), txt additionally a value-wise rounding: that VTK behaves like this is "
+            "observed on every case, not proved (also: the XML/legacy sniffing of the first line, percent-encoding of array names in legacy files)",
             "the norm array is modelled squared: norm_of_scalar_is_abs / norm_determined pin the non-negative root, the square root itself is the harness's",
-            "text form: the rounding is a parameter; file_roundtrip_text / text_keeps_digits still ASSUME that the rounded corners stay ordered and that the "
-            "side-car loads on the rounded mesh - the latter is false in general (D63, text_sidecar_rejected_witness)",
-            "subregions: sidecar_accepted / file_roundtrip_exact_subs / history_roundtrip assume C14.SubInv (subregions fit the mesh exactly), "
-            "not the tolerant acceptance of the setter",
-            "scalar_label_lost / field_label_lost / stale_sidecar(_witness) / text_sidecar_rejected_witness are proved NEGATIVE results "
-            "(findings D62, D61, D64, D63); D61 only as a witness, not for every label set containing 'field'",
-            "legacy reader: truncated / malformed data sections (model and code agree on them in the correspondence run; no theorem)"]
+            "text form: the rounding is a parameter; acceptance is now exact (text_file_accepted_iff: read back iff no edge collapses and every saved "
+            "subregion passes the setter's test on the ROUNDED mesh) and derived from the inputs in two cases (text_roundtrip_fixed_corners: corners kept "
+            "by the rounding; text_roundtrip_no_sidecar: relative error eps and edges longer than eps(|pmin|+|pmax|)); for saved subregions on corners "
+            "the rounding moves, whether the setter's tolerant test passes is NOT decided from the inputs (D63 lives there)",
+            "subregions: sidecar_accepted / file_roundtrip_exact_subs / history_roundtrip / roundtrip_any_labels / stale_sidecar_iff assume C14.SubInv "
+            "(subregions fit the mesh exactly), not the tolerant acceptance of the setter; sidecar_loads_iff_any characterises loading for arbitrary "
+            "entries only down to the setter's own test T.subOk",
+            "scalar_label_lost / field_label_lost / stale_sidecar_witness / text_sidecar_rejected_witness remain as witnesses; the findings themselves are now "
+            "EXACT conditions: D61+D62 = labels_preserved_iff (labels come back iff a scalar field is unlabelled and no component is called field/valid/norm; "
+            "values, validity, geometry, subregions always come back: roundtrip_any_labels), D61 at grid level = component_arrays_any_labels, "
+            "D63 = text_file_accepted_iff, D64 = stale_sidecar_iff + sidecars_over_histories",
+            "names colliding with attributes of Field (rejected by the vdims setter, e.g. 'norm', 'valid', 'mesh') are not modelled: WFc allows them, the "
+            "real constructor does not - the theorems for any labels are stronger than needed there; a file whose label arrays have such names is not generated",
+            "legacy reader: data sections are now covered for ANY lines after the marker (legacy_data_accepted_iff: refused iff one of the first N0*N1*N2 "
+            "lines is blank/non-numeric or holds a wrong number of numbers; legacy_data_values: truncated sections leave zeros, alphabetic lines are counted "
+            "but skipped) on the old LAYOUT (three coordinate blocks, quiet lines in between); for arbitrary line lists only the coordinate-block scan "
+            "(legacy_coord_blocks_iff) and the missing marker (legacy_needs_marker) are characterised, not the whole reader (e.g. files with two or four "
+            "coordinate headers: model and code agree in the correspondence run; no theorem)"]
 BUDGET = {"quick": 90, "thorough": 900}
 
 NAMES = ["x", "y", "z", "a", "b", "c", "u", "v", "w", "t"]
@@ -161,7 +176,7 @@ def gen_legacy(rng, regime):
     sidecar = rng.choice(["none", "none", "ok", "bad"]) if min(N) > 1 else "none"
     return dict(kind="legacy", regime=regime, N=N, c=c, o=o, vec=vec, comp_blocks=vec and rng.random() < 0.6,
                 defect=rng.choice(["none"] * 6 + ["short", "blank", "alpha", "one-number", "two-numbers", "nonuniform", "no-marker",
-                                                  "coords-split", "two-axes"]),
+                                                  "coords-split", "two-axes", "long", "extra-number", "coords-broken", "alpha-first"]),
                 sidecar=sidecar, trailing_nl=rng.random() < 0.7, sub=rng.getrandbits(32))
 
 
@@ -367,6 +382,37 @@ def read_with_vtk(path):
     rd.SetFileName(str(path))
     rd.Update()
     return rd.GetOutput(), xml
+
+
+def legacy_sections(path):
+    """the CELL_DATA sections of a text-form legacy file: [keyword, array name(s)] in file order"""
+    out = []
+    with open(path, encoding="utf-8") as fh:
+        lines = fh.read().split("\n")
+    k = next((i for i, l in enumerate(lines) if l.startswith("CELL_DATA")), None)
+    if k is None:
+        return out
+    k += 1
+    while k < len(lines):
+        w = lines[k].split(" ")
+        if w[0] in ("SCALARS", "VECTORS"):
+            out.append([w[0], unquote(w[1])])  # the legacy writer percent-encodes array names
+        elif w[0] == "FIELD":
+            cnt = int(w[-1])
+            names = []
+            k += 1
+            while len(names) < cnt and k < len(lines):
+                # `name ncomp ntuples type`, then the values on the following line(s)
+                parts = lines[k].rsplit(" ", 3)
+                if len(parts) == 4 and parts[1].isdigit() and parts[2].isdigit() and parts[3] in ("double", "long", "vtktypeint64", "float", "int"):
+                    names.append(unquote(parts[0]))
+                k += 1
+            out.append(["FIELD", names])
+            continue
+        elif w[0] == "POINT_DATA":
+            break
+        k += 1
+    return out
 
 
 def find_cell(g, p):
@@ -575,6 +621,8 @@ def run_field(case, obs):
                     kind = fh.readline().strip()
                 if kind != (b"ASCII" if rep == "txt" else b"BINARY"):
                     fail(f"representation {rep}: file type line is {kind}")
+            if rep == "txt":
+                rec["sections"] = legacy_sections(path)
             changed = vg["coords"] != gj["coords"]
             rec["coords_changed"] = changed
             if rep != "txt" and (changed or [a["vals"] for a in vg["cell"]] != [a["vals"] for a in _by_name(gj, vg)]):
@@ -642,6 +690,8 @@ def legacy_text(c):
         if defect == "coords-split" and N[a] >= 2 and a == 0:
             L.append(" ".join(repr(x) for x in X[a][:1]))
             L.append(" ".join(repr(x) for x in X[a][1:]))
+        elif defect == "coords-broken" and a == c["sub"] % 3:
+            L.append(["", "float", "# none"][c["sub"] % 2])  # header without numbers on the next line: refused
         else:
             L.append(" ".join(repr(x) for x in X[a]))
     L.append(f"POINT_DATA {npts}")
@@ -659,6 +709,13 @@ def legacy_text(c):
         data[rng.randrange(npts)] = repr(rows[0][0])
     elif defect == "two-numbers" and dim == 3:
         data[rng.randrange(npts)] = "1.0 2.0"
+    elif defect == "extra-number":  # one number more than the field has components: refused
+        k = rng.randrange(npts)
+        data[k] = data[k] + " 4.5"
+    elif defect == "long":  # more lines than points: the loop stops after the last cell, nothing after it is looked at
+        data = data + [" ".join(repr(float(x)) for x in range(dim)), "", "trailing text !", "1 2"]
+    elif defect == "alpha-first":  # a keyword line right after the marker: counted as the first cell's line, the last row is dropped
+        data.insert(0, "METADATA")
     if defect != "no-marker":
         L += (["VECTORS field double"] if c["vec"] else ["SCALARS field double", "LOOKUP_TABLE default"])
     else:
@@ -1121,6 +1178,12 @@ def compare(case, obs, rs):
                 if a != b:
                     dis.append(f"to_file({rec['rep']!r}): side-car content impl {a} vs model {b}")
             if rec.get("vgrid") is not None:
+                # the arrays in the order VTK's reader returns them for this file (legacy forms: active attribute first)
+                ai = [[a["name"], a["ncomp"], a["int"]] for a in rec["vgrid"]["cell"]]
+                if ai != r["ok"]["arrays"]:
+                    dis.append(f"to_file({rec['rep']!r}): arrays in the file as VTK reads it {ai} vs model {r['ok']['arrays']}")
+                if "sections" in rec and rec["sections"] != r["ok"]["sections"]:
+                    dis.append(f"to_file('txt'): CELL_DATA sections of the file {rec['sections']} vs model {r['ok']['sections']}")
                 cmp_read(f"from_file[{rec['rep']}]", rec.get("result"), next(it), dis)
                 if exact:
                     cmp_read(f"roundtrip[{rec['rep']}]", rec.get("result"), next(it), dis)
